@@ -44,14 +44,14 @@ fn abs_ok(abs: u128, frac: u32, int: u32) -> bool {
 pub fn to_f32_bits(neg: bool, abs: u128, frac: u32, int: u32) -> u32 { from_to_float_f32(neg, abs, frac, int).to_bits() }
 #[cfg(kani)]
 #[kani::proof_for_contract(to_f32_bits)]
-fn check_to_f32() { to_f32_bits(kani::any(), kani::any(), kani::any(), kani::any()); }
+pub fn check_to_f32() { to_f32_bits(kani::any(), kani::any(), kani::any(), kani::any()); }
 
 #[kani::requires(layout_ok(frac, int) && abs_ok(abs, frac, int))]
 #[kani::ensures(|r: &u64| *r == oracle_f64(neg, abs, frac))]
 pub fn to_f64_bits(neg: bool, abs: u128, frac: u32, int: u32) -> u64 { from_to_float_f64(neg, abs, frac, int).to_bits() }
 #[cfg(kani)]
 #[kani::proof_for_contract(to_f64_bits)]
-fn check_to_f64() { to_f64_bits(kani::any(), kani::any(), kani::any(), kani::any()); }
+pub fn check_to_f64() { to_f64_bits(kani::any(), kani::any(), kani::any(), kani::any()); }
 
 // ---------------------------------------------------------------- float -> fixed (to_float_kind)
 // returns (mag mod 2^128, huge (mag >= 2^128), direction of the rounding) for RNE(m * 2^k), m < 2^53
@@ -106,11 +106,11 @@ fn decode_f64(bits: u64) -> (bool, u64, i32, u8) {
 pub fn kind_f32(bits: u32, fd: u32, id: u32) -> Kind { to_float_kind_f32(f32::from_bits(bits), fd, id) }
 #[cfg(kani)]
 #[kani::proof_for_contract(kind_f32)]
-fn check_kind_f32() { kind_f32(kani::any(), kani::any(), kani::any()); }
+pub fn check_kind_f32() { kind_f32(kani::any(), kani::any(), kani::any()); }
 
 #[kani::requires(layout_ok(fd, id))]
 #[kani::ensures(|k: &Kind| { let (neg, m, e, class) = decode_f64(bits); kind_ok(*k, neg, m, e, fd, id, class) })]
 pub fn kind_f64(bits: u64, fd: u32, id: u32) -> Kind { to_float_kind_f64(f64::from_bits(bits), fd, id) }
 #[cfg(kani)]
 #[kani::proof_for_contract(kind_f64)]
-fn check_kind_f64() { kind_f64(kani::any(), kani::any(), kani::any()); }
+pub fn check_kind_f64() { kind_f64(kani::any(), kani::any(), kani::any()); }
